@@ -7,10 +7,12 @@ From Coq Require Strings.Byte.
 From Circ Require Import Lib.Obs Model.HttpFraming.
 Import ListNotations.
 
-(* byte strings are compared by length and a polynomial checksum (keeps the literals small) *)
+(* byte strings up to 64 bytes are compared literally, longer ones by length and a polynomial checksum
+   (keeps the literals small) *)
 Definition cks (l : list N) : Z :=
   fold_left (fun acc b => ((acc * 257 + Z.of_N b + 1) mod 1000000007)%Z) l 0%Z.
-Definition Tc (l : list N) : T := Tl [Tnat (length l); Tn (cks l)].
+Definition Tc (l : list N) : T :=
+  if (length l <=? 64)%nat then Tl [Tn 0; Tb l] else Tl [Tn 1; Tnat (length l); Tn (cks l)].
 
 Definition obs_state (s : pstate) : T :=
   match s with
